@@ -260,6 +260,18 @@ def wf_exprs(l):
     return all(isinstance(x, ast.expr) and wf(x) for x in l)
 
 
+def literal_value(n):
+    return ast.literal_eval(n)
+
+
+def is_literal(n):
+    try:
+        ast.literal_eval(n)
+        return True
+    except Exception:
+        return False
+
+
 def literal_ok(n):
     try:
         ast.literal_eval(n)
